@@ -260,6 +260,12 @@ pub fn scalar(rng: &mut Prng, allow_unreduced: bool, c: &mut Counters) -> Sc {
         bump(c, "scalar:unreduced_random");
         return Sc { b: B(rng.bytes(32)), k: 2 };
     }
+    if (84..92).contains(&pick) {
+        bump(c, "scalar:structured_words");
+        let b = structured_words(rng);
+        let k = if refmodel::Sc::is_canonical_bytes(&b) { 1 } else if allow_unreduced && b[31] & 0x80 == 0 && rng.coin() { 2 } else { 0 };
+        return Sc { b: B(b.to_vec()), k };
+    }
     if pick >= 92 {
         bump(c, "scalar:near_l_structured");
         let b = near_l_structured(rng);
@@ -415,6 +421,45 @@ pub fn montgomery_wire(rng: &mut Prng, honest: [u8; 32], faulty: bool, c: &mut C
             [0u8; 32]
         }
     }
+}
+
+/// 32 bytes assembled from machine words (64-, 32- or 16-bit grain) each drawn from a small set of patterns: empty,
+/// saturated, repeated nibbles 7 / 8 / f, sign-boundary values, or random. Limb-wise and word-wise code (carry
+/// chains, recodings, folds, word comparisons) only misbehaves on inputs with such a word next to another.
+pub fn structured_words(rng: &mut Prng) -> [u8; 32] {
+    const PAT: [u64; 14] = [
+        0,
+        1,
+        u64::MAX,
+        u64::MAX - 1,
+        0x7777_7777_7777_7777,
+        0x8888_8888_8888_8888,
+        0x7fff_ffff_ffff_ffff,
+        0x8000_0000_0000_0000,
+        0x0808_0808_0808_0808,
+        0xf7f7_f7f7_f7f7_f7f7,
+        0x7878_7878_7878_7878,
+        0x8787_8787_8787_8787,
+        0xf777_7777_7777_7778,
+        0x0fff_ffff_ffff_ffff,
+    ];
+    let grain = [8usize, 8, 8, 4, 2][rng.below(5) as usize];
+    let mut b = [0u8; 32];
+    // a run-wide common word makes "all words equal" and "words cancel" inputs likely
+    let common = PAT[rng.below(PAT.len() as u64) as usize];
+    let rnd = rng.next();
+    for ch in b.chunks_mut(grain) {
+        let w = match rng.below(8) {
+            0 | 1 => common,
+            2 => rnd,
+            3 => rng.next(),
+            _ => PAT[rng.below(PAT.len() as u64) as usize],
+        };
+        let wb = w.to_le_bytes();
+        let off = if w == 0x8000_0000_0000_0000 || w == 0x7fff_ffff_ffff_ffff || w == 0x0fff_ffff_ffff_ffff || w == 0xf777_7777_7777_7778 { 8 - ch.len() } else { 0 };
+        ch.copy_from_slice(&wb[off..off + ch.len()]);
+    }
+    b
 }
 
 /// Structured neighbours of the group order: l (or 2^252) with individual 64-bit / 32-bit words kept, zeroed,
